@@ -22,7 +22,7 @@ kit.register("symks", "symkf", "symt", "symke")
 
 MEMBERS = [
     '~id:m0~ $[*][ stop(symks() == line_number()) symkf.nocontrib() == line_number() -> fail() gt(line_number(), symt()) '
-    'print("m0 at $.csvpath.line_number") @v = line_number() ]',
+    'print("m0 at $.csvpath.line_number") print("audit $.csvpath.line_number", "audit") @v = line_number() ]',
     '~id:m1 unmatched-mode:keep~ $[*][ push("s", line_number()) gt(line_number(), symt()) symke.nocontrib() == line_number() -> mod(1, 0) ]',
     # a member whose scan ends before the file does, and a member that is switched off
     '~id:m2~ $[1-2][ yes() ]',
@@ -90,10 +90,18 @@ def _check_member(run_dir, r, collecting, want_lines, want_unmatched, out):
     es = json.loads(_read(os.path.join(d, "errors.json")))
     if [e.get("line_count") for e in es] != [e.line_count for e in r.errors]:
         out.append(f"{ident}: errors.json != collected errors")
-    pr = list(r.printouts or [])
+    # every printer that was printed to (default and named ones), section by section
+    pr = {k: list(v) for k, v in (r.get_printouts() or {}).items() if v}
     ptxt = _read(os.path.join(d, "printouts.txt")).decode().splitlines() if os.path.exists(os.path.join(d, "printouts.txt")) else []
-    if [x for x in ptxt if not x.startswith("---- PRINTOUT")] != pr:
-        out.append(f"{ident}: printouts.txt != printouts")
+    sections, cur = {}, None
+    for x in ptxt:
+        if x.startswith("---- PRINTOUT: "):
+            cur = x[len("---- PRINTOUT: "):]
+            sections[cur] = []
+        elif cur is not None:
+            sections[cur].append(x)
+    if {k: v for k, v in sections.items() if v} != pr:
+        out.append(f"{ident}: printouts.txt {sections} != printouts {pr}")
     if collecting:
         if _csv(os.path.join(d, "data.csv")) != [RECORDS[i] for i in want_lines]:
             out.append(f"{ident}: data.csv != collected lines")
@@ -144,7 +152,7 @@ ENC = ["csvpath/managers/results/results_manager.py:ResultsManager.start_run/add
     bound="group of 4 members (one with unmatched-mode keep, one with a scan ending before the file, one with run-mode no-run) over a 5-record file with quoted delimiter and embedded newline; stop "
     "line ks, fail line kf, match threshold t, error line ke symbolic LO..HI (shards fix some of them); run method per shard; optionally (shard) an earlier run of the same group by another instance in the same clock second; read "
     "back: run manifest status/all_valid/all_completed/error_count, member meta/vars/errors/manifest, vars.json = variables, "
-    "errors.json = errors, printouts.txt = printouts, data.csv/unmatched.csv parse to the expected lines, fingerprints = sha256 of "
+    "errors.json = errors, printouts.txt = printouts of every printer printed to (default and a named one), data.csv/unmatched.csv parse to the expected lines, fingerprints = sha256 of "
     "the bytes on disk and cover every file",
     outside="symbolic cell text and variable values through json/csv (C boundary): the data side is this one fixture; groups of "
     "more than 2; the symbolic ints are realised when the archive is written (solver-driven walk over the box)",
